@@ -32,8 +32,14 @@ vars == <<pc, kind, cells, stack, nleaf, nwrap>>
 
 Init == pc = "kind" /\ kind = "" /\ cells = <<>> /\ stack = <<>> /\ nleaf = 0 /\ nwrap = 0
 
-Kinds == { k \in {"push", "comb", "wrap", "close"} :
+(* "dup": two cards of one plane in one intersection (the region is a half-space or - opposite senses -  *)
+(* empty, which the converter can only see after de-duplication); "helper": the look-alikes of the union *)
+(* helper planes PLANEX 1 / PLANEX -1                                                                     *)
+DupPairs == { <<2, 11>>, <<11, 2>>, <<3, 14>>, <<14, 3>>, <<1, 12>>, <<12, 1>> }
+Kinds == { k \in {"push", "comb", "wrap", "close", "dup", "helper"} :
              \/ k = "push" /\ nleaf < MaxLeaves
+             \/ k = "dup" /\ nleaf + 2 <= MaxLeaves
+             \/ k = "helper" /\ nleaf < MaxLeaves
              \/ k = "comb" /\ Len(stack) >= 2
              \/ k = "wrap" /\ Len(stack) >= 1 /\ nwrap < MaxWraps
              \/ k = "close" /\ Len(stack) = 1 }
@@ -43,6 +49,12 @@ ChooseKind == /\ pc = "kind" /\ \E k \in Kinds : kind' = k
 Leaves == SurfLeaves \cup { <<"C", j>> : j \in 1..Len(cells) }
 Push == /\ kind = "push" /\ \E l \in Leaves : stack' = Append(stack, l)
         /\ nleaf' = nleaf + 1 /\ pc' = "kind" /\ UNCHANGED <<cells, nwrap>>
+Dup == /\ kind = "dup"
+       /\ \E pr \in DupPairs, sa \in {-1, 1}, sb \in {-1, 1} :
+            stack' = Append(stack, <<"*", <<"S", sa * pr[1], 0>>, <<"S", sb * pr[2], 0>> >>)
+       /\ nleaf' = nleaf + 2 /\ pc' = "kind" /\ UNCHANGED <<cells, nwrap>>
+Helper == /\ kind = "helper" /\ \E n \in {1, 2, 11, 12}, sg \in {-1, 1} : stack' = Append(stack, <<"S", sg * n, 0>>)
+          /\ nleaf' = nleaf + 1 /\ pc' = "kind" /\ UNCHANGED <<cells, nwrap>>
 Comb == /\ kind = "comb"
         /\ \E op \in {"*", ":"} :
              stack' = Append(SubSeq(stack, 1, Len(stack) - 2), <<op, stack[Len(stack) - 1], stack[Len(stack)]>>)
@@ -54,7 +66,7 @@ Close == /\ kind = "close"
               /\ cells' = Append(cells, [geom |-> stack[1], imp |-> imp])
               /\ pc' = IF last \/ Len(cells) + 2 >= MaxCells THEN "final" ELSE "kind"
          /\ stack' = <<>> /\ nleaf' = 0 /\ nwrap' = 0
-Apply == pc = "apply" /\ kind' = "" /\ (Push \/ Comb \/ Wrap \/ Close)
+Apply == pc = "apply" /\ kind' = "" /\ (Push \/ Dup \/ Helper \/ Comb \/ Wrap \/ Close)
 
 RefsBefore(i) == [j \in 1..(i - 1) |-> <<"C", j>>]
 FullGeom(i) == IF i = 1 THEN cells[1].geom ELSE <<"*", cells[i].geom>> \o RefsBefore(i)
